@@ -436,6 +436,9 @@ def run(ctx):
 
 
 def replay(ctx, doc):
+    if "cfg" not in doc.get("replay", {}):
+        # a model-vs-implementation disagreement (v2v / hbvalues): the case is regenerated from the run's seed, so replay = the check itself
+        return run(ctx)
     cfg = doc["replay"]["cfg"]
     issued, bad, space = run_case(cfg)
     fs = [Failure("violation", "C05/%s/%s" % (bad[0], cfg["kind"]), bad[1], {"cfg": cfg})] if bad else []
